@@ -220,7 +220,7 @@ struct PoolImage {
 fn gen_image(src: &mut Src, prev: Option<&PoolImage>) -> PoolImage {
     let h = 6 + src.draw(35) as usize;
     let w = 1 + src.draw(40) as usize;
-    let kind = src.draw(6);
+    let kind = src.draw(7);
     let palette: Vec<RGBA> = (0..1 + src.draw(6)).map(|i| RGBA::new((i * 50 + src.draw(40)) as u8, (200 - i * 30) as u8, src.draw(256) as u8, 255)).collect();
     let transparent = src.chance(1, 4);
     // partly transparent pixels: alphas next to the ends and the middle of the range, on
@@ -252,6 +252,26 @@ fn gen_image(src: &mut Src, prev: Option<&PoolImage>) -> PoolImage {
         2 => {
             let data: Vec<RGBA> = (0..h * w).map(|i| many(i / w, i % w)).collect();
             PoolImage { image: Image::from_parts(data.into(), Shape::from(Size::new(h, w))), class: "many-colours", few_colours: h * w <= 256 }
+        }
+        6 => {
+            // wide and flat: runs of one sixel code longer than 255 columns (a repeat count that
+            // does not fit a byte), interrupted by marks of another colour, the run's colour
+            // coming back after them
+            let (h, w) = (*src.pick(&[6usize, 12]), 256 + src.draw(90) as usize);
+            let mark_at = 1 + src.draw((w - 2) as u32) as usize;
+            let mark_len = 1 + src.draw(3) as usize;
+            let stripe_row = src.draw(h as u32) as usize;
+            let data: Vec<RGBA> = (0..h * w)
+                .map(|i| {
+                    let (r, c) = (i / w, i % w);
+                    if c >= mark_at && c < mark_at + mark_len && (r == stripe_row || seed % 2 == 0) {
+                        palette[palette.len() - 1]
+                    } else {
+                        palette[0]
+                    }
+                })
+                .collect();
+            PoolImage { image: Image::from_parts(data.into(), Shape::from(Size::new(h, w))), class: "wide-flat-with-marks", few_colours: true }
         }
         5 => {
             // exactly n distinct colours at 0-100 resolution, around the palette size
